@@ -72,6 +72,14 @@ Numbers(c) ==
           : n \in {m \in Range(BrNamesOf(c.ins[1])) : (c.fam = "reduce" /\ Occurrences(c, m) = 1)}}
   ELSE {}
 
+(* a number in an input of an element-wise operation with omitted output: the fresh axis is part of the default output
+   "a b 3, a b"  ==  "a b c, a b -> a b c" with c = 3   (omitted output and number = fresh axis, composed) *)
+NumberOmitted(c) ==
+  IF c.fam = "elementwise" /\ DefaultOut(c) # <<>> /\ DefaultOut(c) = c.outs
+  THEN {Pair("number_and_omitted_output", Subst(InsToks(c), n, LenTok(c.L[n])), DescToks(c), NoKw, "same")
+          : n \in {m \in NameSet(c.outs[1]) : CountIn(m, InsToks(c)) = 1 /\ c.L[m] \in 2..3}}     \* a literal 1 is not a fresh axis for this rule (the documented rule excludes 1s)
+  ELSE {}
+
 (* --- rule: additional spaces --- *)
 Spaces(c) ==
   LET d == DescToks(c) IN
@@ -159,7 +167,7 @@ EllScalar(c) ==
 EllScalarCases == {[fam |-> "ellscalar", r |-> r, av |-> av, cv |-> cv, dv |-> dv, tail |-> tl] : r \in 1..3, av \in 1..3, cv \in 1..3, dv \in 1..3, tl \in BOOLEAN}
 
 RulePairs(c) == IF c.fam = "ellscalar" THEN EllScalar(c) ELSE
-            OmitOutput(c) \cup Unbracketed(c) \cup MergedBrackets(c) \cup Numbers(c) \cup Spaces(c) \cup Keepdims(c)
+            OmitOutput(c) \cup Unbracketed(c) \cup MergedBrackets(c) \cup Numbers(c) \cup NumberOmitted(c) \cup Spaces(c) \cup Keepdims(c)
             \cup Ellipses(c) \cup NestedArrow(c) \cup NestedComma(c) \cup Unit1Bracket(c) \cup Rearrange(c)
 
 ---------------------------------------------------------------------------
